@@ -119,6 +119,13 @@ class Node:
             raise RecognitionError('{}\nInvalid value for {}'.format(
                 self.yaml_node.start_mark,
                 self.yaml_node.tag.split(':')[-1]))
+        if isinstance(self.yaml_node, yaml.ScalarNode):
+            # is_scalar() without a type is true for timestamps, binaries
+            # and the like as well, so this is a problem with the input
+            raise RecognitionError(
+                    '{}\nExpected a string, int, float, bool or null here,'
+                    ' but found a value with tag "{}"'.format(
+                        self.yaml_node.start_mark, self.yaml_node.tag))
         raise RuntimeError('This node with tag "{}" is not of the right type'
                            ' for get_value()'.format(self.yaml_node.tag))
 
